@@ -42,6 +42,42 @@ CORE = "onnx_ir._core"
 
 # ---- R2: rejection points that cannot fire where they are reached -----------------------------
 # (regex on "Origin.local: condition", regex on the via-chain or None, reason)
+def _complete_step_guard(text: str) -> bool:
+    """The validation rejects EVERY extended slice whose size differs from the assigned sequence: a conjunction of a test that
+    holds for every step other than None and 1 (`<i>.step not in (None, 1)`, `<i>.step is not None and <i>.step != 1`) and of
+    `len(<a>) != len(<b>)` - `(i.step or 1) > 1` lets negative steps through."""
+    for part in re.split(r" ## | && ", text):
+        try:
+            e = ast.parse(part.strip(), mode="eval").body
+        except SyntaxError:
+            continue
+        conj = e.values if isinstance(e, ast.BoolOp) and isinstance(e.op, ast.And) else [e]
+        flat = []
+        for c in conj:
+            flat += c.values if isinstance(c, ast.BoolOp) and isinstance(c.op, ast.And) else [c]
+
+        def is_step(x):
+            return isinstance(x, ast.Attribute) and x.attr == "step"
+
+        step_ok = False
+        for c in flat:
+            if isinstance(c, ast.Compare) and len(c.ops) == 1 and isinstance(c.ops[0], ast.NotIn) and is_step(c.left) \
+                    and isinstance(c.comparators[0], (ast.Tuple, ast.Set, ast.List)):
+                vals = [x.value for x in c.comparators[0].elts if isinstance(x, ast.Constant)]
+                if len(vals) == len(c.comparators[0].elts) and set(map(repr, vals)) == {"None", "1"}:
+                    step_ok = True
+        not_none = any(isinstance(c, ast.Compare) and len(c.ops) == 1 and isinstance(c.ops[0], ast.IsNot) and is_step(c.left)
+                       and isinstance(c.comparators[0], ast.Constant) and c.comparators[0].value is None for c in flat)
+        not_one = any(isinstance(c, ast.Compare) and len(c.ops) == 1 and isinstance(c.ops[0], ast.NotEq) and is_step(c.left)
+                      and isinstance(c.comparators[0], ast.Constant) and c.comparators[0].value == 1 for c in flat)
+        step_ok = step_ok or (not_none and not_one)
+        len_ok = any(isinstance(c, ast.Compare) and len(c.ops) == 1 and isinstance(c.ops[0], ast.NotEq)
+                     and all(isinstance(x, ast.Call) and isinstance(x.func, ast.Name) and x.func.id == "len" for x in (c.left, c.comparators[0])) for c in flat)
+        if step_ok and len_ok:
+            return True
+    return False
+
+
 INFEASIBLE = [
     {"guard": '^_LinkBox\\.erase: self\\.value is None', "via": None, "why": 'erase() is only called by DoublyLinkedSet.remove on a box taken from the id→box map, which holds live boxes only (C11-R3)', "requires": ()},
     {"guard": '^DoublyLinkedSet\\._insert_one_after: \\$p1\\.owning_list is not self', "via": None, "why": "box is self._root(.prev) or a box from self's own map in every caller (C11-R3 insertion entry points)", "requires": ()},
@@ -60,7 +96,7 @@ INFEASIBLE = [
     {"guard": '^GraphInitializers\\.(__setitem__|_check_item): not isinstance\\((key|\\$p1), str\\)', "via": 'Value\\.name\\.setter', "why": 'the new name is annotated str | None and None is rejected up front; a non-string name is a type-violating call (wrong Python types are outside the property, see NOT_DECIDED)', "requires": ()},
     {"guard": '^Value\\.name\\.setter: ', "via": 'GraphInitializers\\.(__setitem__|_check_item), .*Value\\.name\\.setter|Value\\.name\\.setter, .*GraphInitializers\\.(__setitem__|_check_item), .*Value\\.name\\.setter', "why": "__setitem__ names the value only when it has no name; re-entry of the setter from the setter's own re-keying sees name == key and returns early", "requires": ()},
     {"guard": '^GraphInitializers\\.(__setitem__|_check_item): (not \\(not value\\.name\\) and key != value\\.name|value\\.name and key != value\\.name|\\$p2\\.name and \\$p1 != \\$p2\\.name)', "via": 'GraphInitializers\\.update', "why": 'the commit writes `value.name = key` only for an unnamed value, and update rejects up front an unnamed value given under two different keys (fix b8d1d7f), so no key is ever compared with a name set for an earlier key', "requires": ('not \\$\\d+\\.name and .*id\\(\\$\\d+\\)',)},
-    {"guard": '^UserList\\.__setitem__@_GraphIO: `i` is an extended slice', "via": '_GraphIO\\.__setitem__', "why": 'the index branch runs under isinstance(i, SupportsIndex); the slice branch rejects an extended slice whose size differs from the assigned sequence before it releases or adopts anything (fix df0f9ca)', "requires": ('\\.step\\b.*len\\(',)},
+    {"guard": '^UserList\\.__setitem__@_GraphIO: `i` is an extended slice', "via": '_GraphIO\\.__setitem__', "why": 'the index branch runs under isinstance(i, SupportsIndex); the slice branch rejects an extended slice whose size differs from the assigned sequence before it releases or adopts anything (fix df0f9ca)', "requires": (_complete_step_guard,)},
     {"guard": '^UserDict\\.__delitem__@GraphInitializers: key of `del self\\.data\\[key\\]` absent', "via": 'Value\\.name\\.setter', "why": 'an initializer is stored under its current name (C01-R3d), which is the key popped', "requires": ()},
     {"guard": '^UserDict\\.__delitem__@GraphInitializers: key of `del self\\.data\\[key\\]` absent', "via": 'GraphInitializers\\.__delitem__', "why": '__delitem__ reads self.data[key] (KeyError before any write) before unsetting', "requires": ()},
     {"guard": '^Graph\\.(_set_node_graph_to_self_and_assign_names|_check_node_can_be_added): (node|\\$p1)\\.graph is not None and (node|\\$p1)\\.graph is not self', "via": '^onnx_ir\\._core:Graph\\.sort,', "why": 'each bucket of sorted nodes is keyed by node.graph and extended into that same graph (C12-R2)', "requires": ()},
@@ -393,7 +429,9 @@ def run(ctx):
             # every mutator the entry was used for (and that the entry's `via` names) must still validate by itself
             holders = [f for f in muts if ent["via"] and re.search(ent["via"], f.key + ",") and f.key in used.get(("by", i), ())]
             missing = [f for f in holders if not any(
-                re.search(need, r.cond + " ## " + _expanded_guard(f, r.node)) for r in ef.summary(f).rejs.values() if r.origin == f.key)]
+                (need(r.cond + " ## " + _expanded_guard(f, r.node)) if callable(need) else re.search(need, r.cond + " ## " + _expanded_guard(f, r.node)))
+                for r in ef.summary(f).rejs.values() if r.origin == f.key)]
+            need = (need.__doc__ or need.__name__).split(":")[0][:90] if callable(need) else need
             ctx.check("R2", f"table entry {i} requires validation `{need}`", bool(holders) and not missing, ctx.repo.module(CORE), None,
                       f"the validation `{need}` that makes this guard infeasible is gone from {', '.join(f.local for f in missing) or 'the mutator'}",
                       how="a rejection with that condition exists in each mutator the entry is used for", symbol="C06:INFEASIBLE",
